@@ -30,7 +30,7 @@ def check_type(drv, sel, X, y, feats, dtype, measure_name, filter_kind, cfg, ret
         iv = selgen.measure(iname, X[f].tolist(), y.tolist())
         indep[f] = iv
         stats["measures_checked"] += 1
-        both_nan = math.isnan(v) and (math.isnan(iv) or iv == 0)
+        both_nan = math.isnan(v) and (math.isnan(iv) or iv <= 1e-6)   # R_measure: a (numerically) null R² is undefined
         if not both_nan and not (abs(v - iv) <= 1e-9 * max(1.0, abs(iv))):
             fails.append({"kind": "property", "what": "a reported association value differs from its independent recomputation",
                           "feature": f, "measure": measure_name, "reported": v, "recomputed": iv})
